@@ -1,11 +1,13 @@
 """C14 — convolution produces the true convolution with the unit-area kernel spline.
-Proof: PsV/Props/C14.lean (conv_shape, transfer_is_mode_product, factorial_spec, norm_spec, divdiff lemmas, ...).
+Proof: PsV/Props/C14.lean (blossom_is_convolution = Strøm's identity for the table, all inputs; unit_area for every
+kernel; conv_shape, transfer_is_mode_product, factorial_spec, norm_spec, divdiff lemmas, ...).
 Tie: real splinetable::convolve / splinetable_convolve / convoluted_blossom / factorial vs PsV.convolve at the
 F32 carrier (double working precision, float coefficient storage): orders, knot counts, naxes, strides, knots,
 extents, every raw blossom (transfer-matrix entry before normalisation) and every convolved coefficient bit for bit.
 Oracle: exact rational convolution integral (PsV.ConvSpec.specConv, independent of blossoming) at the evaluation
 points; |C++ value - spec| <= K * 2^-24 * S.  Exact side check: the table produced by the model at Rat, evaluated
-exactly, equals the spec exactly (Strøm's identity on every sampled case)."""
+exactly, equals the spec exactly (Strøm's identity; a theorem since the deepening round — driver_exact_check_holds —
+kept as run-time validation of its hypotheses and of the driver)."""
 import json, os, struct
 from fractions import Fraction
 
@@ -199,7 +201,7 @@ def finish_cov(ctx, state, dist):
         "table knots in the convolved dimension and kernel knots strictly increasing and finite (divided differences divide by knot differences); n >= 2 kernel knots",
         "order + n - 1 <= 12 so that the unsigned factorials do not wrap (factorialC is modelled mod 2^32 and compared for n <= 16)",
         "coefficient envelope K = naxes_old + 4 single-precision roundings (float accumulation over the old axis, float storage); double-precision error of the blossoms is not bounded by a theorem, only observed (max ratio in coverage)",
-        "the identity 'blossom transfer matrix = convolution' (Strøm) is carried by the exact Rat comparison on sampled cases, not by a Lean proof",
+        "the identity 'blossom transfer matrix = convolution' (Strøm) is a Lean theorem (blossom_is_convolution: exact arithmetic, row-major well-formed table, strictly increasing knots, n >= 2, order+n-1 <= 12, point in the new knot range); the exact Rat comparison on sampled cases remains as validation of these hypotheses; nothing is proved about double/float round-off",
         "std::sort is modelled by List.mergeSort: equal doubles are bit-identical (no -0 sums are generated), so the sorted sequence is unique"]
 
 def run(ctx):
